@@ -7,6 +7,7 @@ import resgen
 import wgslgen as W
 
 ID = "C02"
+ENV_COMPARE = 30         # cases generated once more from a cargo build-script environment: same result (lib/runner.py)
 TABLES = ["buffer_binding", "storage_access"]      # leaf tables compared exhaustively through the hooks (coq/Check/Tables.v)
 VALIDATE_MIX = True
 REQUIRES = ["C02Features", "Agree", "C02Spec", "C02Proof"]
